@@ -7,7 +7,7 @@ Export ListNotations.
 Definition obs_eqb (a b : obs) : bool :=
   match a, b with
   | TdBegin x, TdBegin y | Started x, Started y | Seg x, Seg y | ActionInvoked x, ActionInvoked y
-  | CancelSeen x, CancelSeen y | StopSeen x, StopSeen y | Clean x, Clean y | Finished x, Finished y => Nat.eqb x y
+  | CancelSeen x, CancelSeen y | StopSeen x, StopSeen y | Clean x, Clean y | CtxSeg x, CtxSeg y | Finished x, Finished y => Nat.eqb x y
   | Left, Left => true
   | _, _ => false
   end.
